@@ -117,7 +117,7 @@ def main():
             res["suite"] = {"s": round(dt, 1), "failed_in_full_run": fails, "noise": noise, "passed_alone": [f for f in real if f not in still],
                             "still_failing": still, "build_failed": build_fail, "ok": not still and not build_fail}
         # 4. checks
-        checks = [c for c in (a.checks.split(",") if a.checks else [a.prop]) if c]
+        checks = [c for c in (a.checks.split(",") if a.checks else meta.get("checks_to_run", [a.prop])) if c]
         res["checks"] = {}
         for c in checks:
             for seed in a.seeds.split(","):
